@@ -11,7 +11,9 @@
 //              child of block p, every block of the segment with flag bits f (1 = BABE primary
 //              slot claim, 4 = receipt stored, 8 = message queue stored, 10 = justification
 //              stored). Block ids are assigned sequentially from 1; block 0 is genesis. `-` is
-//              the tree with genesis only.
+//              the tree with genesis only. An optional suffix `@<id>` finalises block <id> after
+//              the tree is built (BlockState.SetFinalisedHash: the chain up to <id> moves to
+//              the database, the forks that do not contain <id> are pruned).
 //     <dir>    0 ascending, 1 descending, other values are sent as they are
 //     <from>   n<number> | h<block id> | u (a hash nobody knows)
 //     <max>    - (nil) | <number>
@@ -115,7 +117,11 @@ func c31Payload(kind byte, id int) []byte { return []byte{kind, byte(id), byte(i
 
 var c31BaseDir string
 
-func c31Build(tree string) *c31Chain {
+func c31Build(treeAndFin string) *c31Chain {
+	tree, fin := treeAndFin, ""
+	if i := strings.IndexByte(treeAndFin, '@'); i >= 0 {
+		tree, fin = treeAndFin[:i], treeAndFin[i+1:]
+	}
 	dir := fmt.Sprintf("%s/db-%d", c31BaseDir, time.Now().UnixNano())
 	db, err := database.LoadDatabase(dir, true)
 	if err != nil {
@@ -172,6 +178,11 @@ func c31Build(tree string) *c31Chain {
 			}
 			add(&blk.Header, body, sg.flags)
 			parent = id
+		}
+	}
+	if fin != "" {
+		if err := bs.SetFinalisedHash(c.hashes[vu.UnX(fin)], 1, 1); err != nil {
+			panic(fmt.Sprintf("finalising block %s: %v", fin, err))
 		}
 	}
 	return c
@@ -417,7 +428,16 @@ func c31GenTree(r *vu.RNG) (tree string, numbers []uint64, mainLen uint64) {
 	if len(segs) == 0 {
 		return "-", numbers, mainLen
 	}
-	return strings.Join(segs, ";"), numbers, mainLen
+	tree = strings.Join(segs, ";")
+	if r.Chance(1, 4) {
+		// finalise a block: mostly on the main chain, sometimes anywhere (a fork)
+		f := uint64(r.Intn(len(numbers)-1) + 1)
+		if r.Chance(2, 3) && mainLen > 0 {
+			f = uint64(r.Intn(int(mainLen)) + 1)
+		}
+		tree += fmt.Sprintf("@%x", f)
+	}
+	return tree, numbers, mainLen
 }
 
 func c31GenReq(r *vu.RNG, numbers []uint64, mainLen uint64) string {
